@@ -1,7 +1,7 @@
 from specs import KEYS, CHECKS, unit
 
 CHECKS['C13'] = {
-    'ready': False,
+    'ready': True,
     'level': 'exploration',
     'rule': '2-8 worker goroutines with pre-drawn operation streams on their own files (moved between shared directories), 1-2 saver '
             'goroutines, block limit 2-16, every Keep write parked in a gate and released by a pre-drawn plan (order, failure, pacing); '
